@@ -66,6 +66,26 @@ SPECIAL = [
 ]
 
 
+def ring_digit_centres():
+    """stereo centres that are NOT first in the string and whose neighbours after the preceding atom (and H) are all
+    ring-closure digits: closing + opening, opening + opening, closing + closing, three digits - in every digit order"""
+    import itertools
+    out = []
+    fams = [('N1CC(C[C{c}H]{d})OC2', '12'), ('OC(C[C{c}H]{d})(CC1)NC2', '12'), ('N1CC2CC[C{c}H]{d}', '12'),
+            ('N1CCC2(OC[C{c}]{d})SC3', '123'), ('N1CC2CC3(OC[C{c}]{d})SC3', None), ('N1CC(C[C{c}]{d}F)OC2', '12'),
+            ('N1CC2CC[C{c}]{d}Cl', '12'), ('FC(C[C{c}]{d})(CC1)(NC2)', '12'), ('C1CC2CC3C[C{c}]{d}', '123'),
+            ('OC1CC(C[C{c}H]{d})OC2.F', '12')]
+    # the same centres with a closing digit written after a branch on the partner (recorded finding C04/C10 class)
+    out += ['F[C@@]12CCCC(O2)1', 'F[C@]12CCCC(O2)1', 'C[C@@]12CCCC(C2)1', 'C(C[C@@]12CCC)C(C2)1C', 'F[C@@]12CCCC1(O2)']
+    for t, digs in fams:
+        if digs is None:
+            continue
+        for perm in itertools.permutations(digs):
+            for c in ('@', '@@'):
+                out.append(t.replace('{c}', c).replace('{d}', ''.join(perm)))
+    return out
+
+
 def long_chain_cases():
     """ring spans / branch lengths on both sides of every index-width boundary (16, 16^2) and up to the documented
     limit 16^3, in several shapes (the width of the index is decided in one place for rings and one for branches;
